@@ -730,6 +730,11 @@ def run(ctx):
             ctx.ob("C11.d", rf.qual, not extra, "refresh applies every response it collected (the _update_state call in the loop is unconditional)", func=rf.qual, file=rf.module.rel,
                    node=n_, detail={"condition": [show(c_[0])[:80] for c_ in extra]},
                    fail="refresh skips _update_state for some responses (`" + "; ".join(show(c_[0])[:60] for c_ in extra[:2]) + "`): a reported state is not exposed")
+    # ... and in the order the device reported them: refresh applies the frames of an exchange one after the other, so "the attributes equal the
+    # reported values" means the values of the *latest* report - LAN.send hands the frames back in arrival order (queued before the request,
+    # the response, queued after it); a reordering lets a stale unsolicited report overwrite the reply to this refresh
+    from ._pipeline import result_in_arrival_order
+    result_in_arrival_order(ctx, "C11.d")
     ctx.count("refresh_update_sites", n_us)
     ctx.require_min("body_check_rejections", 1)
     ctx.require_min("regions", 6)
